@@ -335,8 +335,11 @@ func ParseField(v reflect.Value, bytes []byte, params fieldParameters) error {
 
 		sliceLen := len(valArray)
 		newSlice := reflect.MakeSlice(sliceType, sliceLen, sliceLen)
+		// the context tag belongs to the SEQUENCE OF itself, not to its elements
+		elemParams := params
+		elemParams.tagNumber = nil
 		for i := 0; i < sliceLen; i++ {
-			errParse := ParseField(newSlice.Index(i), valArray[i], params)
+			errParse := ParseField(newSlice.Index(i), valArray[i], elemParams)
 			if errParse != nil {
 				return errParse
 			}
